@@ -14,7 +14,7 @@ RULE = ("every name of the space-group dictionary; conforming cells (oblique for
         "checks (lattice shift, occupancy linearity, Uiso vs equivalent tensor, F(000)) on the same cases; non-trivial = group with > 1 "
         "operation or special position; distinct = distinct (group, atoms, h)")
 ASSUMPTIONS = ["reference: F_ref = sum over the distinct images R x + t (mod 1) of each atom of occ (f + f' + i f'') T exp(2 pi i h.r), with s from the harness' reciprocal metric, f from the harness' Gaussian sum over the live table, T = exp(-8 pi^2 U s^2) or exp(-h' R beta R' h), beta_ij = 2 pi^2 a*_i a*_j U_ij",
-               "operations are read from the live sg.sg instance (under the C04 invariant in this run); images are identified exactly with Fractions",
+               "operations are read straight from the xfab.sglib class named by the dictionary entry (not through xfab.sg.sg; every sg.sg instance the code creates (under the C04 invariant in this run); images are identified exactly with Fractions",
                "tolerance as in C07 (6-digit thirds in the tables)"]
 FLOORS = {"post:structure.StructureFactor = explicit P1 sum": 1500, "derived:lattice shift leaves F unchanged": 300,
           "derived:F is linear in occupancy": 300, "derived:Uiso = equivalent anisotropic tensor": 80,
@@ -112,7 +112,7 @@ def case_explicit(ctx, p):
     mon = ctx.mon
     rng = np.random.default_rng(p["s"])
     key = p["key"]
-    o = ctx.sgmod.sg(sgname=key)
+    o = c04.table_by_name(key)         # straight from xfab.sglib, not through xfab.sg.sg
     ops, problems = sx.ops_of(o.rot, o.trans)
     if problems:
         mon.check("post:operations readable", False, observed=problems[:2])
